@@ -260,25 +260,39 @@ package funcGen
 //@   closure-spec "error accessing method" as ParserFunc attr fs(self) = len(gc.am), cl(self) = len(gc.cm), pureFn(self) = (pureFn(valFunc) && (forall i in 0..len(argsFuncList) :: pureFn(argsFuncList[i])))
 
 // the loops of the generated code: every argument is evaluated in the frame it was compiled for and then pushed
+//@ predicate frameShape(st any, s0 any, n int) = validStack(st) && st.storage == s0.storage && st.offs == s0.offs && st.size == s0.size+n && len(st.storage.data) >= old(len(s0.storage.data)) && (ref(st.storage.data) == old(ref(s0.storage.data)) || fresh(st.storage.data))
+//@ predicate callerSlotsKept(st any, s0 any) = forall i in 0..s0.offs+s0.size :: st.storage.data[i] == old(s0.storage.data[i])
 //@ predicate frameKept(st any, s0 any, n int) = validStack(st) && slotsNonNil(st) && st.storage == s0.storage && st.offs == s0.offs && st.size == s0.size+n && len(st.storage.data) >= old(len(s0.storage.data)) && (ref(st.storage.data) == old(ref(s0.storage.data)) || fresh(st.storage.data)) && (forall i in 0..s0.offs+s0.size :: st.storage.data[i] == old(s0.storage.data[i]))
 
 //@ closure FunctionGenerator.GenerateFunc anchor "error in switch-case"
 //@   option body-only
-//@   loop 1 invariant frameKept(st, old(st), 0) && 0 <= rangeidx
+//@   loop 1 invariant frameShape(st, old(st), 0) && 0 <= rangeidx
+//@   loop 1 invariant slotsNonNil(st)
+//@   loop 1 invariant callerSlotsKept(st, old(st))
 //@ closure FunctionGenerator.GenerateFunc anchor "List literal error"
 //@   option body-only
-//@   loop 1 invariant frameKept(st, old(st), 0) && 0 <= rangeidx && rangeidx <= len(itemFuncs) && len(itemValues) == len(itemFuncs) && fresh(itemValues)
+//@   loop 1 invariant frameShape(st, old(st), 0) && 0 <= rangeidx && rangeidx <= len(itemFuncs) && len(itemValues) == len(itemFuncs) && fresh(itemValues)
+//@   loop 1 invariant slotsNonNil(st)
+//@   loop 1 invariant callerSlotsKept(st, old(st))
 //@   loop 1 invariant ref(st.storage.data) == old(ref(st.storage.data)) || calleefresh(st.storage.data)
 //@ closure FunctionGenerator.GenerateFunc anchor "fun.Func(st.CreateFrame(len(argsFuncList)), nil)"
 //@   option body-only
-//@   loop 1 invariant frameKept(st, old(st), rangeidx) && 0 <= rangeidx && rangeidx <= len(argsFuncList)
+//@   loop 1 invariant frameShape(st, old(st), rangeidx) && 0 <= rangeidx && rangeidx <= len(argsFuncList)
+//@   loop 1 invariant slotsNonNil(st)
+//@   loop 1 invariant callerSlotsKept(st, old(st))
 //@ closure FunctionGenerator.GenerateFunc anchor "error in getting function"
 //@   option body-only
-//@   loop 1 invariant frameKept(st, old(st), rangeidx) && 0 <= rangeidx && rangeidx <= len(argsFuncList)
+//@   loop 1 invariant frameShape(st, old(st), rangeidx) && 0 <= rangeidx && rangeidx <= len(argsFuncList)
+//@   loop 1 invariant slotsNonNil(st)
+//@   loop 1 invariant callerSlotsKept(st, old(st))
 //@ closure FunctionGenerator.GenerateFunc anchor "error accessing method"
 //@   option body-only
-//@   loop 1 invariant frameKept(st, old(st), rangeidx) && 0 <= rangeidx && rangeidx <= len(argsFuncList)
-//@   loop 2 invariant frameKept(st, old(st), rangeidx+1) && 0 <= rangeidx && rangeidx <= len(methodArgsFuncList)
+//@   loop 1 invariant frameShape(st, old(st), rangeidx) && 0 <= rangeidx && rangeidx <= len(argsFuncList)
+//@   loop 1 invariant slotsNonNil(st)
+//@   loop 1 invariant callerSlotsKept(st, old(st))
+//@   loop 2 invariant frameShape(st, old(st), rangeidx+1) && 0 <= rangeidx && rangeidx <= len(methodArgsFuncList)
+//@   loop 2 invariant slotsNonNil(st)
+//@   loop 2 invariant callerSlotsKept(st, old(st))
 
 // ---------------------------------------------------------------- C02: the optimizer's rewrites are unobservable
 // pureImpl(m): the implementation is a function of its operands (what IsPure declares); acImpl(m): it is associative and
